@@ -59,14 +59,83 @@ fn all_stmts(stmts: &[Statement], out: &mut Vec<(Sexp, String)>) {
 }
 
 /// every statement context of an error, outermost first
-fn statement_contexts(e: &ExecutionError, out: &mut Vec<(String, Location)>) {
+fn statement_contexts(e: &ExecutionError, out: &mut Vec<tree_sitter_graph::StatementContext>) {
     if let ExecutionError::InContext(ctx, cause) = e {
         if let Context::Statement(v) = ctx {
             for c in v {
-                out.push((c.statement.clone(), c.statement_location));
+                out.push(c.clone());
             }
         }
         statement_contexts(cause, out);
+    }
+}
+
+/// Pretty rendering (implementation only): every statement context of the error is rendered with its three excerpts — the
+/// statement and its stanza in the DSL file, the matched node in the source file — and the statement named by a context
+/// is the statement written at the cited location of THIS file.
+fn check_pretty(rep: &mut Report, file: &tree_sitter_graph::ast::File, tsg: &str, source: &crate::props::common::Source, globals: &[(String, tree_sitter_graph::graph::Value)]) {
+    let functions = tree_sitter_graph::functions::Functions::stdlib();
+    let mut gl = tree_sitter_graph::Variables::new();
+    for (k, v) in globals {
+        gl.add(tree_sitter_graph::Identifier::from(k.as_str()), v.clone()).unwrap();
+    }
+    for lazy in [false, true] {
+        let config = tree_sitter_graph::ExecutionConfig::new(&functions, &gl).lazy(lazy);
+        let r = std::panic::catch_unwind(std::panic::AssertUnwindSafe(|| {
+            match file.execute(&source.tree, &source.src, &config, &tree_sitter_graph::NoCancellation) {
+                Ok(_) => None,
+                Err(e) => {
+                    let mut ctxs = Vec::new();
+                    statement_contexts(&e, &mut ctxs);
+                    Some((format!("{}", e), format!("{}", e.display_pretty(Path::new("src.py"), &source.src, Path::new("rules.tsg"), tsg)), ctxs))
+                }
+            }
+        }));
+        match r {
+            Ok(Some((_plain, pretty, ctxs))) => {
+                rep.count("pretty-rendered");
+                for c in &ctxs {
+                    let (text, loc) = (&c.statement, &c.statement_location);
+                    let mut at = Vec::new();
+                    for st in &file.stanzas {
+                        stmt_texts_at(&st.statements, loc, &mut at);
+                    }
+                    rep.count("statement-texts-checked");
+                    if !at.contains(text) {
+                        rep.fail("direct", "C20 the statement text in an error context is not the statement at the cited location", true,
+                            json!({"tsg": tsg, "source": source.src, "lazy": lazy, "context_statement": text, "location": format!("{}", loc), "statements_there": at}));
+                    }
+                    // the three excerpts of THIS context: headers `path:row:column:` (1-based) and the kind of the matched node
+                    let want = [
+                        format!("rules.tsg:{}:{}:", c.statement_location.row + 1, c.statement_location.column + 1),
+                        format!("rules.tsg:{}:{}:", c.stanza_location.row + 1, c.stanza_location.column + 1),
+                        format!("src.py:{}:{}:", c.source_location.row + 1, c.source_location.column + 1),
+                        format!("matching ({}) node", c.node_kind),
+                    ];
+                    rep.count("pretty-context-excerpts-checked");
+                    for w in &want {
+                        if !pretty.contains(w.as_str()) {
+                            rep.fail("direct", "C20 pretty rendering does not show an excerpt of one of the error's statement contexts", true,
+                                json!({"tsg": tsg, "source": source.src, "lazy": lazy, "missing": w, "pretty": pretty}));
+                            break;
+                        }
+                    }
+                }
+                // one "in stanza" and one "matching (..) node" block per context
+                let n_stanza = pretty.matches("in stanza\n").count();
+                let n_node = pretty.matches(") node\n").count();
+                if n_stanza != ctxs.len() || n_node != ctxs.len() {
+                    rep.fail("direct", "C20 pretty rendering shows fewer or more stanza / node excerpts than the error has statement contexts", true,
+                        json!({"tsg": tsg, "source": source.src, "lazy": lazy, "contexts": ctxs.len(), "stanza_blocks": n_stanza, "node_blocks": n_node, "pretty": pretty}));
+                }
+                // errors raised while executing a stanza carry a context and must cite the DSL and source lines
+                if _plain.starts_with("Error executing") && !(pretty.contains("rules.tsg:") && pretty.contains("src.py:")) {
+                    rep.fail("direct", "C20 pretty rendering does not cite the DSL file", true, json!({"tsg": tsg, "source": source.src, "pretty": pretty}));
+                }
+            }
+            Ok(None) => {}
+            Err(_) => rep.fail("impl-panic", "C20 rendering an execution error panics", true, json!({"tsg": tsg, "source": source.src, "lazy": lazy})),
+        }
     }
 }
 
@@ -124,48 +193,7 @@ pub fn run(rep: &mut Report, tier: &str, seed: u64) {
                     }
                 }
             }
-            // pretty rendering cites the lines (implementation only)
-            let functions = tree_sitter_graph::functions::Functions::stdlib();
-            let mut gl = tree_sitter_graph::Variables::new();
-            for (k, v) in &globals {
-                gl.add(tree_sitter_graph::Identifier::from(k.as_str()), v.clone()).unwrap();
-            }
-            for lazy in [false, true] {
-                let config = tree_sitter_graph::ExecutionConfig::new(&functions, &gl).lazy(lazy);
-                let r = std::panic::catch_unwind(std::panic::AssertUnwindSafe(|| {
-                    match case.loaded.file.execute(&case.source.tree, &case.source.src, &config, &tree_sitter_graph::NoCancellation) {
-                        Ok(_) => None,
-                        Err(e) => {
-                            let mut ctxs = Vec::new();
-                            statement_contexts(&e, &mut ctxs);
-                            Some((format!("{}", e), format!("{}", e.display_pretty(Path::new("src.py"), &case.source.src, Path::new("rules.tsg"), case.tsg)), ctxs))
-                        }
-                    }
-                }));
-                match r {
-                    Ok(Some((_plain, pretty, ctxs))) => {
-                        rep.count("pretty-rendered");
-                        // the statement named by a context is the statement written at the cited location of THIS file
-                        for (text, loc) in &ctxs {
-                            let mut at = Vec::new();
-                            for st in &case.loaded.file.stanzas {
-                                stmt_texts_at(&st.statements, loc, &mut at);
-                            }
-                            rep.count("statement-texts-checked");
-                            if !at.contains(text) {
-                                rep.fail("direct", "C20 the statement text in an error context is not the statement at the cited location", true,
-                                    json!({"tsg": case.tsg, "source": case.source.src, "lazy": lazy, "context_statement": text, "location": format!("{}", loc), "statements_there": at}));
-                            }
-                        }
-                        // errors raised while executing a stanza carry a context and must cite the DSL and source lines
-                        if _plain.starts_with("Error executing") && !(pretty.contains("rules.tsg:") && pretty.contains("src.py:")) {
-                            rep.fail("direct", "C20 pretty rendering does not cite the DSL file", true, json!({"tsg": case.tsg, "source": case.source.src, "pretty": pretty}));
-                        }
-                    }
-                    Ok(None) => {}
-                    Err(_) => rep.fail("impl-panic", "C20 rendering an execution error panics", true, json!({"tsg": case.tsg, "source": case.source.src, "lazy": lazy})),
-                }
-            }
+            check_pretty(rep, &case.loaded.file, case.tsg, case.source, &globals);
         });
     conflict_stream(rep, &mut runner, tier, seed);
     dead_value_stream(rep, &mut runner, tier, seed);
@@ -185,7 +213,11 @@ fn conflict_stream(rep: &mut Report, runner: &mut Runner, tier: &str, seed: u64)
         let v = *r.pick(&["v", "val", "kind"]);
         let w = if r.chance(1, 3) { *r.pick(&["w", "other"]) } else { v };
         let (a, b, c) = (r.below(9), r.below(9), 10 + r.below(9));
-        let text = match r.below(5) {
+        let text = match r.below(7) {
+            // the two conflicting statements are ONE statement of one stanza, executed for two different matches (lazy): each
+            // context has its own matched node
+            5 => format!("inherit .shared\n(module) @m {{\n  node @m.shared\n  let @m.{w} = {a}\n}}\n(identifier) @id {{\n  attr (@id.shared) {v} = (source-text @id)\n}}\n"),
+            6 => format!("inherit .mod\n(module) @m {{\n  let @m.mod = @m\n}}\n[(identifier) (integer) (pass_statement)] @x {{\n  let @x.mod.{v} = (start-column @x)\n}}\n(string) @s {{\n  let @s.{w} = {b}\n}}\n"),
             0 => format!("(module) @m {{\n  let @m.{v} = {a}\n}}\n(identifier) @id {{\n  let @id.{w} = {b}\n}}\n(module) @m2 {{\n  let @m2.{v} = {c}\n}}\n"),
             1 => format!("(module (_) @s) @m {{\n  let @m.{v} = {a}\n  let @s.{w} = {b}\n  let @m.{v} = {c}\n}}\n"),
             2 => format!("(module) @m {{\n  var @m.{v} = {a}\n}}\n(identifier) @id {{\n  let @id.{w} = (source-text @id)\n}}\n(integer) @i {{\n  let @i.{w} = {b}\n}}\n(module) @m2 {{\n  if #true {{\n    let @m2.{v} = {c}\n  }}\n}}\n"),
@@ -208,6 +240,7 @@ fn conflict_stream(rep: &mut Report, runner: &mut Runner, tier: &str, seed: u64)
         runner.table.arm_sets = crate::astx::scan_arm_sets(&loaded.file);
         let case = Case { tsg: &text, loaded: &loaded, source: &source, info: &info, mi: &mi };
         rep.case(&format!("{}\u{0}{}", text, source.src), true);
+        check_pretty(rep, &loaded.file, &text, &source, &[]);
         for lazy in [false, true] {
             let res = runner.check_mode(rep, &case, &RunCfg { lazy, globals: vec![], outer_globals: vec![], debug: None, cancel_at: None }, true, true);
             rep.count(&format!("conflict-stream:{}:{}", if lazy { "lazy" } else { "strict" }, res.class));
@@ -277,6 +310,11 @@ fn dead_value_stream(rep: &mut Report, runner: &mut Runner, tier: &str, seed: u6
         runner.set_tree(&info, &source.src);
         runner.table = crate::oracle::OracleTable::new();
         runner.table.arm_sets = crate::astx::scan_arm_sets(&loaded.file);
+        if mi.n_matches == 0 {
+            // a source whose root is not a `module` (the whole tree is an ERROR node): the stanza does not run at all
+            rep.count("dead-value-stream:no-match");
+            continue;
+        }
         let case = Case { tsg: &text, loaded: &loaded, source: &source, info: &info, mi: &mi };
         rep.case(&format!("{}\u{0}{}", text, source.src), true);
         for lazy in [false, true] {
